@@ -169,7 +169,7 @@ def msm_1d(calc, cov, standardise):
         if not (np.all(np.isfinite(sm)) and np.all(np.isfinite(rm))):
             return None
         if standardise:
-            if np.any(np.abs(rm) < 1e-9):
+            if np.any(np.abs(rm) < 1e-9) or (f.data_scale is not None and np.any(np.abs(rm) < 1e-7 * f.data_scale)):
                 return None
             sm = sm / np.abs(rm)[None, :]
             rm = rm / np.abs(rm)
@@ -180,12 +180,16 @@ def msm_1d(calc, cov, standardise):
             var = np.mean((rm[None, :] - sm) ** 2, axis=0)
             if np.any(var <= 1e-12 * (rm * rm + np.mean(sm * sm, axis=0)) + 1e-300):
                 return None
+            # a variance at the rounding-noise level of the (unfiltered) data, e.g. the std of the HP cycle of a constant series
+            if f.data_scale is not None and np.any(var <= (1e-7 * f.data_scale) ** 2):
+                return None
             return float(sum(g[i] * g[i] / var[i] for i in range(len(g))))
         W = np.asarray(cov, dtype=float)
         f.abs_scale = float(sum(abs(g[i] * W[i, j] * g[j]) for i in range(len(g)) for j in range(len(g))))
         return float(sum(g[i] * W[i, j] * g[j] for i in range(len(g)) for j in range(len(g))))
 
     f.abs_scale = 0.0
+    f.data_scale = None
     return f
 
 
